@@ -476,6 +476,49 @@ func Verif_C12_ACL() {
 	vr.Reach("end")
 }
 
+// Verif_C12_AfterOwnUserDeleted: a history on one connection - it authenticates as a user it created,
+// that user is deleted (by itself, or edited/reset instead), and the connection goes on sending
+// commands: every one of them is answered with a well-formed value and nothing crashes, whatever the
+// deletion did to the connection's entry in the user table.
+func Verif_C12_AfterOwnUserDeleted() {
+	s := verifServer()
+	conn := verifTCPConn(s, 0)
+	u := "worker"
+	_, _, p0 := verifRunTCP(s, conn, "ACL", "SETUSER", u, "on", ">pw", "allkeys", "allcommands", "allcategories", "allchannels")
+	_, _, p1 := verifRunTCP(s, conn, "AUTH", u, "pw")
+	vr.Assert(!p0 && !p1, "C12.deleted_user.setup")
+	if p0 || p1 {
+		return
+	}
+	var step []string
+	switch vr.Choose("change", 4) {
+	case 0:
+		step = []string{"ACL", "DELUSER", u}
+	case 1:
+		step = []string{"ACL", "DELUSER", "nobody", u}
+	case 2:
+		step = []string{"ACL", "SETUSER", u, "off", "resetpass"}
+	case 3:
+		step = []string{"ACL", "SETUSER", u, "reset"}
+	}
+	_, _, p2 := verifRunTCP(s, conn, step...)
+	vr.Assert(!p2, "C12.deleted_user.no_crash")
+	if p2 {
+		return
+	}
+	next := [][]string{{"ACL", "WHOAMI"}, {"PING"}, {"GET", "k"}, {"ACL", "LIST"}, {"ACL", "USERS"}, {"AUTH", u, "pw"}, {"HELLO"}, {"ACL", "GETUSER", u},
+		{"ACL", "DELUSER", u}, {"CLIENT", "ID"}, {"SUBSCRIBE", "ch"}}[vr.Choose("next", 11)]
+	reply, err, p3 := verifRunTCP(s, conn, next...)
+	vr.Assert(!p3, "C12.deleted_user.no_crash")
+	if p3 {
+		return
+	}
+	if err == nil && len(reply) > 0 {
+		vr.Assert(vr.Decode(reply).OK, "C12.deleted_user.reply_is_one_wellformed_value")
+	}
+	vr.Reach("end")
+}
+
 // Verif_C12_StreamWithErrors: a pipeline in which one command fails (unknown command, wrong arity, wrong
 // type, bad number - chosen by name) between commands that succeed, delivered in one write or cut at an
 // arbitrary byte offset: every command - the failing one with an error reply - is answered exactly
